@@ -64,6 +64,22 @@ static ABT_pool pool_handle(int p)
     return g_pool[p].h;
 }
 
+/* migration callback with an optional rendezvous (finding F6: a second request issued while the first one
+ * is being handled) */
+static volatile int g_cb_calls[MAXU], g_cb_armed, g_cb_entered, g_cb_release;
+static void mig_cb(ABT_thread thread, void *arg)
+{
+    unit_t *u = (unit_t *)arg;
+    (void)thread;
+    g_cb_calls[u->idx]++;
+    if (g_cb_armed) {
+        g_cb_armed = 0;
+        g_cb_entered = 1;
+        while (!g_cb_release)
+            sched_yield();
+    }
+}
+
 static void run_ops(unit_t *me);
 static void unit_fn(void *arg)
 {
@@ -312,6 +328,31 @@ static void run_ops(unit_t *me)
             case 'B':
                 wait_blocked(me, i);
                 break;
+            case 'b': /* install the migration callback on unit i; "b<i>!" arms the rendezvous */
+                ret = ABT_thread_set_callback(g_u[i].h, mig_cb, &g_u[i]);
+                if (strchr(t, '!'))
+                    g_cb_armed = 1;
+                vh_note(UEV_OPE, 'b', i, ret);
+                break;
+            case 'w': /* wait until the armed callback has been entered */
+                while (!g_cb_entered)
+                    self_yield(me);
+                break;
+            case 'o': /* let the callback return */
+                g_cb_release = 1;
+                break;
+            case 'p': { /* record the pool unit i was last associated with and its callback count */
+                ABT_pool lp;
+                int pid = -1, q;
+                ret = ABT_thread_get_last_pool(g_u[i].h, &lp);
+                for (q = 0; q < g_npool; q++)
+                    if (lp == g_pool[q].h)
+                        pid = q;
+                if (pid < 0 && lp == pool_handle(99))
+                    pid = 99;
+                vh_note(UEV_OPE, 'p', i, pid * 1000 + g_cb_calls[i]);
+                break;
+            }
             case 'm':
                 vh_note(UEV_OPB, 'm', i, 0);
                 ret = ABT_thread_migrate(g_u[i].h);
